@@ -114,6 +114,13 @@ func sAdd(a, b string) string {
 	if a == "0" {
 		return b
 	}
+	// a + (x - a) = x   (absolute-index re-parametrisation of triggers)
+	if strings.HasPrefix(b, "(- ") && strings.HasSuffix(b, " "+a+")") {
+		x := b[3 : len(b)-len(a)-2]
+		if balanced(x) {
+			return x
+		}
+	}
 	return "(+ " + a + " " + b + ")"
 }
 func sSub(a, b string) string {
@@ -244,12 +251,13 @@ type VC struct {
 	specComps map[string][]string // heap components a spec function reads (ordered)
 	assumptions map[string]bool
 	funcsUsed   map[string]bool
+	localPrefix map[string]string // ref term of a non-escaping local struct -> component prefix
 }
 
 func newVC(w *World, name string) *VC {
 	vc := &VC{w: w, Name: name, declared: map[string]bool{}, compSort: map[string]string{},
 		tags: map[string]int{}, strConst: map[string]string{}, specDone: map[string]bool{},
-		specComps: map[string][]string{}, assumptions: map[string]bool{}, funcsUsed: map[string]bool{}}
+		specComps: map[string][]string{}, assumptions: map[string]bool{}, funcsUsed: map[string]bool{}, localPrefix: map[string]string{}}
 	return vc
 }
 
@@ -412,6 +420,13 @@ func (vc *VC) hget(h *Heap, comp string) string {
 	n := qsym(fmt.Sprintf("%s@e%d", comp, h.epoch))
 	vc.declConst(n, sort)
 	vc.wellFormedComp(comp, n)
+	if sort == "(Array Int Slice)" && comp != compAlloc {
+		// heap closedness: every slice stored in the heap of this epoch
+		// refers to an array allocated before the epoch's allocation counter
+		vc.compDecl(compAlloc, sortInt)
+		a := vc.hget(&Heap{m: map[string]string{}, epoch: h.epoch}, compAlloc)
+		vc.decl("closed:"+n, fmt.Sprintf("(assert (forall ((a Int)) (! (< (s-arr (select %s a)) %s) :pattern ((select %s a)))))", n, a, n))
+	}
 	if comp == compAlloc {
 		vc.decl("allocpos:"+n, "(assert (< 0 "+n+"))")
 	}
@@ -448,4 +463,31 @@ func (vc *VC) wellFormedComp(comp, name string) {
 	} else if sort == "(Array Int Int)" {
 		vc.decl("wf:"+name, fmt.Sprintf("(assert (forall ((a Int)) (! (and (<= %s (select %s a)) (<= (select %s a) %s)) :pattern ((select %s a)))))", lo, name, name, hi, name))
 	}
+}
+
+// balanced: s is one complete SMT term (atom or one parenthesised term).
+func balanced(s string) bool {
+	if s == "" {
+		return false
+	}
+	depth := 0
+	for i := 0; i < len(s); i++ {
+		switch s[i] {
+		case '(':
+			depth++
+		case ')':
+			depth--
+			if depth < 0 {
+				return false
+			}
+			if depth == 0 && i != len(s)-1 {
+				return false
+			}
+		case ' ':
+			if depth == 0 {
+				return false
+			}
+		}
+	}
+	return depth == 0
 }
